@@ -48,10 +48,10 @@ type Segment struct {
 }
 
 type ServerControl struct {
-	CanBlockReload  bool
-	PartHoldBackNS  *int64
-	CanSkipUntilNS  *int64
-	HoldBackNS      *int64
+	CanBlockReload    bool
+	PartHoldBackNS    *int64
+	CanSkipUntilNS    *int64
+	HoldBackNS        *int64
 	CanSkipDateRanges bool
 }
 
@@ -90,14 +90,14 @@ type Media struct {
 }
 
 type Variant struct {
-	URI              string
-	Bandwidth        int
-	AverageBandwidth *int
-	Codecs           []string
-	Resolution       string
-	FrameRate        string
+	URI                                     string
+	Bandwidth                               int
+	AverageBandwidth                        *int
+	Codecs                                  []string
+	Resolution                              string
+	FrameRate                               string
 	Video, Audio, Subtitles, ClosedCaptions string
-	Attrs            []Attr
+	Attrs                                   []Attr
 }
 
 type Rendition struct {
@@ -291,16 +291,16 @@ var yes = []string{"YES"}
 var yesno = []string{"YES", "NO"}
 
 var (
-	specStart      = map[string]attrSpec{"TIME-OFFSET": {typ: "sfloat", required: true}, "PRECISE": {typ: "enum", enum: yesno}}
-	specServerCtl  = map[string]attrSpec{"CAN-BLOCK-RELOAD": {typ: "enum", enum: yes}, "PART-HOLD-BACK": {typ: "float"}, "CAN-SKIP-UNTIL": {typ: "float"}, "HOLD-BACK": {typ: "float"}, "CAN-SKIP-DATERANGES": {typ: "enum", enum: yes}}
-	specPartInf    = map[string]attrSpec{"PART-TARGET": {typ: "float", required: true}}
-	specMap        = map[string]attrSpec{"URI": {typ: "qstr", required: true}, "BYTERANGE": {typ: "qrange"}}
-	specSkip       = map[string]attrSpec{"SKIPPED-SEGMENTS": {typ: "int", required: true}, "RECENTLY-REMOVED-DATERANGES": {typ: "qstr"}}
-	specKey        = map[string]attrSpec{"METHOD": {typ: "enum", enum: []string{"NONE", "AES-128", "SAMPLE-AES", "SAMPLE-AES-CTR"}, required: true}, "URI": {typ: "qstr"}, "IV": {typ: "hex"}, "KEYFORMAT": {typ: "qstr"}, "KEYFORMATVERSIONS": {typ: "qstr"}}
-	specPart       = map[string]attrSpec{"DURATION": {typ: "float", required: true}, "URI": {typ: "qstr", required: true}, "INDEPENDENT": {typ: "enum", enum: yes}, "BYTERANGE": {typ: "qrange"}, "GAP": {typ: "enum", enum: yes}}
-	specHint       = map[string]attrSpec{"TYPE": {typ: "enum", enum: []string{"PART", "MAP"}, required: true}, "URI": {typ: "qstr", required: true}, "BYTERANGE-START": {typ: "int"}, "BYTERANGE-LENGTH": {typ: "int"}}
-	specStreamInf  = map[string]attrSpec{"BANDWIDTH": {typ: "int", required: true}, "AVERAGE-BANDWIDTH": {typ: "int"}, "CODECS": {typ: "qstr"}, "RESOLUTION": {typ: "res"}, "FRAME-RATE": {typ: "float"}, "VIDEO": {typ: "qstr"}, "AUDIO": {typ: "qstr"}, "SUBTITLES": {typ: "qstr"}, "CLOSED-CAPTIONS": {typ: "qstr|enum"}, "HDCP-LEVEL": {typ: "enum", enum: []string{"TYPE-0", "TYPE-1", "NONE"}}, "VIDEO-RANGE": {typ: "enum", enum: []string{"SDR", "HLG", "PQ"}}, "PROGRAM-ID": {typ: "int"}, "NAME": {typ: "qstr"}, "STABLE-VARIANT-ID": {typ: "qstr"}, "SCORE": {typ: "float"}, "SUPPLEMENTAL-CODECS": {typ: "qstr"}, "PATHWAY-ID": {typ: "qstr"}, "ALLOWED-CPC": {typ: "qstr"}}
-	specMedia      = map[string]attrSpec{"TYPE": {typ: "enum", enum: []string{"AUDIO", "VIDEO", "SUBTITLES", "CLOSED-CAPTIONS"}, required: true}, "GROUP-ID": {typ: "qstr", required: true}, "NAME": {typ: "qstr", required: true}, "LANGUAGE": {typ: "qstr"}, "ASSOC-LANGUAGE": {typ: "qstr"}, "DEFAULT": {typ: "enum", enum: yesno}, "AUTOSELECT": {typ: "enum", enum: yesno}, "FORCED": {typ: "enum", enum: yesno}, "CHANNELS": {typ: "qstr"}, "URI": {typ: "qstr"}, "INSTREAM-ID": {typ: "qstr"}, "CHARACTERISTICS": {typ: "qstr"}, "STABLE-RENDITION-ID": {typ: "qstr"}, "BIT-DEPTH": {typ: "int"}, "SAMPLE-RATE": {typ: "int"}}
+	specStart     = map[string]attrSpec{"TIME-OFFSET": {typ: "sfloat", required: true}, "PRECISE": {typ: "enum", enum: yesno}}
+	specServerCtl = map[string]attrSpec{"CAN-BLOCK-RELOAD": {typ: "enum", enum: yes}, "PART-HOLD-BACK": {typ: "float"}, "CAN-SKIP-UNTIL": {typ: "float"}, "HOLD-BACK": {typ: "float"}, "CAN-SKIP-DATERANGES": {typ: "enum", enum: yes}}
+	specPartInf   = map[string]attrSpec{"PART-TARGET": {typ: "float", required: true}}
+	specMap       = map[string]attrSpec{"URI": {typ: "qstr", required: true}, "BYTERANGE": {typ: "qrange"}}
+	specSkip      = map[string]attrSpec{"SKIPPED-SEGMENTS": {typ: "int", required: true}, "RECENTLY-REMOVED-DATERANGES": {typ: "qstr"}}
+	specKey       = map[string]attrSpec{"METHOD": {typ: "enum", enum: []string{"NONE", "AES-128", "SAMPLE-AES", "SAMPLE-AES-CTR"}, required: true}, "URI": {typ: "qstr"}, "IV": {typ: "hex"}, "KEYFORMAT": {typ: "qstr"}, "KEYFORMATVERSIONS": {typ: "qstr"}}
+	specPart      = map[string]attrSpec{"DURATION": {typ: "float", required: true}, "URI": {typ: "qstr", required: true}, "INDEPENDENT": {typ: "enum", enum: yes}, "BYTERANGE": {typ: "qrange"}, "GAP": {typ: "enum", enum: yes}}
+	specHint      = map[string]attrSpec{"TYPE": {typ: "enum", enum: []string{"PART", "MAP"}, required: true}, "URI": {typ: "qstr", required: true}, "BYTERANGE-START": {typ: "int"}, "BYTERANGE-LENGTH": {typ: "int"}}
+	specStreamInf = map[string]attrSpec{"BANDWIDTH": {typ: "int", required: true}, "AVERAGE-BANDWIDTH": {typ: "int"}, "CODECS": {typ: "qstr"}, "RESOLUTION": {typ: "res"}, "FRAME-RATE": {typ: "float"}, "VIDEO": {typ: "qstr"}, "AUDIO": {typ: "qstr"}, "SUBTITLES": {typ: "qstr"}, "CLOSED-CAPTIONS": {typ: "qstr|enum"}, "HDCP-LEVEL": {typ: "enum", enum: []string{"TYPE-0", "TYPE-1", "NONE"}}, "VIDEO-RANGE": {typ: "enum", enum: []string{"SDR", "HLG", "PQ"}}, "PROGRAM-ID": {typ: "int"}, "NAME": {typ: "qstr"}, "STABLE-VARIANT-ID": {typ: "qstr"}, "SCORE": {typ: "float"}, "SUPPLEMENTAL-CODECS": {typ: "qstr"}, "PATHWAY-ID": {typ: "qstr"}, "ALLOWED-CPC": {typ: "qstr"}}
+	specMedia     = map[string]attrSpec{"TYPE": {typ: "enum", enum: []string{"AUDIO", "VIDEO", "SUBTITLES", "CLOSED-CAPTIONS"}, required: true}, "GROUP-ID": {typ: "qstr", required: true}, "NAME": {typ: "qstr", required: true}, "LANGUAGE": {typ: "qstr"}, "ASSOC-LANGUAGE": {typ: "qstr"}, "DEFAULT": {typ: "enum", enum: yesno}, "AUTOSELECT": {typ: "enum", enum: yesno}, "FORCED": {typ: "enum", enum: yesno}, "CHANNELS": {typ: "qstr"}, "URI": {typ: "qstr"}, "INSTREAM-ID": {typ: "qstr"}, "CHARACTERISTICS": {typ: "qstr"}, "STABLE-RENDITION-ID": {typ: "qstr"}, "BIT-DEPTH": {typ: "int"}, "SAMPLE-RATE": {typ: "int"}}
 )
 
 func attrNS(m map[string]Attr, n string) *int64 {
